@@ -40,11 +40,10 @@ TRUSTED = [
   'the direct oracle classifies ValueError messages of PythonBits as width / range / other by their text',
 ]
 ASSUMPTIONS = [
-  'core language: Bits signals (ports of the component), int literals / module-level int constants / Bits constants held as component '
-  'attributes, loop and temporary variables, ~ unary-minus + - * & | ^ % << >>, comparisons, if-expressions, BitsN casts, '
+  'core language: Bits signals (ports of the component), int literals / int, bool and BitsN constants referenced by bare name (module level or construct() locals) / Bits constants '
+  'held as component attributes, loop and temporary variables, ~ unary-minus + - * & | ^ % << >>, comparisons, if-expressions, BitsN casts, '
   'zext/sext/trunc (int and BitsN width), reduce_*, concat, bit index, constant and lo:lo+N slices, @= assignments to signals / bits / '
-  'slices, temporaries, if, for over constant ranges; not modelled: / ** unary + (no Bits method: TypeError), module-level Bits '
-  'constants (FreeVar nodes), struct fields, interfaces, sub-component ports, arrays, <<= in update_ff (same __ilshift__ checks as @=), '
+  'slices, temporaries, if, for over constant ranges; not modelled: / ** unary + (no Bits method: TypeError), struct fields, interfaces, sub-component ports, arrays, <<= in update_ff (same __ilshift__ checks as @=), '
   'widths >= 1024',
   'the theorems need the block to be clean (Model/TCSpec.lean, issuesS = []): every excluded shape is either an exclusion of the '
   'property itself (width-changing cast, misaligned shift), a soundness hole of the checker with a Lean counter-example '
@@ -144,6 +143,7 @@ class Walk:
     cls = type(r).__name__
     k = g[0]
     if k == 'num': want = ('Number', 'FreeVar')
+    elif k == 'cast' and g[3] in ('globfv', 'locfv'): want = ('FreeVar',)
     elif k == 'ext': want = (EXT_CLASS[g[1]],)
     else: want = (KIND_CLASS[k],)
     if cls not in want:
@@ -172,6 +172,8 @@ class Walk:
       if k == 'bin' and g[1] in ('shl', 'shr'): self.shifts.append((rann(r.left), rann(r.right)))
     elif k == 'ite':
       self.expr(path + [0], g[1], r.cond, a[4]); self.expr(path + [1], g[2], r.body, a[5]); self.expr(path + [2], g[3], r.orelse, a[6])
+    elif k == 'cast' and g[3] in ('globfv', 'locfv'):
+      pass       # a BitsN free variable is one explicit leaf; the model's literal child has no RTLIR node
     elif k == 'cast':
       if int(r.nbits) != g[1]: self.diffs.append((path, 'cast-nbits', g[1], int(r.nbits)))
       self.expr(path + [0], g[2], r.value, a[4]); self.casts.append((g[1], rann(r.value)))
@@ -282,6 +284,7 @@ def make_env(rng, case, mod):
     setattr(s, ('i%d' if d == 'in' else 'o%d') % x, R.mk_bits(w)(v)); sigs.append([x, v])
   for n, v in G.class_source(case)[3]: setattr(s, f'KB{n}_{v}', R.mk_bits(n)(v))
   loc = {'s': s}
+  for nm, src in G.free_vars(case)[1]: loc[nm] = eval(src, mod.__dict__)
   lvs = []
   for i, a, b, c in loops_of(case['block']):
     try: rg = list(range(a, b, c))
@@ -701,6 +704,14 @@ def corpus():
     mk(30, [[0, 3, 'in'], [1, 3, 'out']], [['for', 0, 8, 0, -1, [['asg', S(1, 3), ['bin', 'add', S(0, 3), ['lv', 0]]]]]]),
     mk(31, [[0, 4, 'out']], [['for', 0, 16, 0, -4, [['asg', S(0, 4), ['lv', 0]]]]]),
     mk(32, [[0, 3, 'in'], [1, 3, 'out']], [['for', 0, 8, 0, -1, [['ifs', ['cmp', 'eq', S(0, 3), ['lv', 0]], [['asg', S(1, 3), S(0, 3)]], []]]]]),
+    # BitsN constants referenced by bare name (module level / construct() local): explicit of their own width
+    mk(54, io8, [['asg', S(3, 8), ['bin', 'add', S(0, 8), ['cast', 4, N(3), 'globfv']]]]),
+    mk(55, io8, [['asg', S(3, 8), ['bin', 'add', S(0, 8), ['cast', 8, N(3), 'locfv']]]]),
+    mk(56, io8, [['asg', S(3, 8), ['cast', 4, N(3), 'locfv']]]),
+    mk(57, [[0, 8, 'in'], [1, 1, 'in'], [2, 8, 'out']], [['asg', S(2, 8), ['ite', S(1, 1), S(0, 8), ['cast', 4, N(3), 'globfv']]]]),
+    mk(58, [[0, 8, 'in'], [1, 1, 'out']], [['asg', S(1, 1), ['cmp', 'eq', ['cast', 4, N(3), 'globfv'], S(0, 8)]]]),
+    mk(59, io8, [['asg', S(3, 8), ['bin', 'add', S(0, 8), ['num', 200, 'loc']]]]),
+    mk(60, [[0, 1, 'in'], [1, 1, 'out']], [['asg', S(1, 1), ['bin', 'band', S(0, 1), ['num', 1, 'globb']]]]),
     # mixed if-expressions (one literal branch, one explicitly sized branch) in a wider / equal context, both orders
     mk(47, [[0, 1, 'in'], [1, 8, 'in'], [2, 16, 'out']], [['asg', S(2, 16), ['ite', S(0, 1), N(0), S(1, 8)]]]),
     mk(48, [[0, 1, 'in'], [1, 8, 'in'], [2, 16, 'in'], [3, 16, 'out']],
@@ -761,6 +772,7 @@ def run(ck):
     batch(12 if quick else 30, lambda u: G.gen_boolop(rng, u))
     batch(14 if quick else 36, lambda u: G.gen_tmpseq(rng, u))
     batch(14 if quick else 36, lambda u: G.gen_mixite(rng, u))
+    batch(14 if quick else 36, lambda u: G.gen_fvar(rng, u))
     nsrc = (10, 3, 2, 8) if quick else (30, 8, 6, 24)
     src_cases = []
     for n, f in zip(nsrc, (lambda u: ST.gen_struct(rng, u), lambda u: ST.gen_lut(rng, u, 'N6'), lambda u: ST.gen_lut(rng, u, 'lutctl'),
